@@ -225,8 +225,15 @@ PSHAPES = ["absent", "null", "ok", "wrongTypes", "argsNull", "argsList", "empty"
 IDCLASSES = ["int0", "intNeg", "intPos", "intBig", "strEmpty", "strDigit", "strText", "none"]
 
 
-def concrete_id(idc):
-    return {"int0": 0, "intNeg": -7, "intPos": 41, "intBig": 2**63 + 5, "strEmpty": "", "strDigit": "123", "strText": "req-é"}[idc]
+ID_VARIANTS = {"int0": [0], "intNeg": [-7, -1, -2**63, -2**70], "intPos": [41, 1, 2**31, 2**53 + 1], "intBig": [2**63 + 5, 2**64 - 1, 2**64, 10**30],
+               "strEmpty": [""], "strDigit": ["123", "0", "007", "-5"], "strText": ["req-\u00e9", "null", "true", " ", "a\nb", "\U0001F600", "x" * 300]}
+RANDOM_METHODS = ["zz/\u00e9   random", "x", " ", "tools/call ", "Tools/Call", "TOOLS/LIST", "ping\n", "notifications/", "rpc.discover", "initialize\u0000", "\U0001F600", "a" * 500,
+                  "notifications/unknown/thing", "tools/call/extra", "$/cancelRequest"]
+
+
+def concrete_id(idc, v=0):
+    xs = ID_VARIANTS[idc]
+    return xs[v % len(xs)]
 
 
 def _params(mclass, pshape):
@@ -265,12 +272,17 @@ def run_dispatch_cases(cases):
     for c in cases:
         mclass = c["mclass"]
         method = METHOD_CLASSES.get(mclass, mclass)   # std notification names are used verbatim
+        v = c.get("v", 0)
+        if mclass == "random":
+            method = RANDOM_METHODS[v % len(RANDOM_METHODS)]
         body = {"jsonrpc": "2.0", "method": method}
         p = _params(mclass, c["pshape"])
         if p != "ABSENT":
             body["params"] = p
         if c["kind"] == "request":
-            body["id"] = concrete_id(c["idc"])
+            body["id"] = concrete_id(c["idc"], v)
+        if v and isinstance(body.get("params"), dict) and c["pshape"] == "ok":
+            body["params"] = dict(body["params"], _meta={"progressToken": v}, extra={"n": None, "l": [v]})
         try:
             if c.get("typed"):
                 msg = (JSONRPCRequest if c["kind"] == "request" else JSONRPCNotification).model_validate(body)
